@@ -499,6 +499,21 @@ def opCmp {τ ε : Type} (io : ShapeIO τ ε) (mk : String → M τ) (cmpTy : τ
     return s!"eq={tf eq} ne={tf !eq} ord={ordName o} rord={ordName ro} pord={ordName o} heq={tf eq} seq={tf (sa == sb)} lt={tf (o == .lt)} le={tf (o != .gt)}"
   | _, _ => return "NOVALUE"
 
+def ordOf {τ ε : Type} (io : ShapeIO τ ε) (cmpTy : τ → τ → Ordering) (a b : GPurl τ) : Ordering :=
+  match cmpTy a.ty b.ty with
+  | .eq => cmpParts a.parts b.parts
+  | o => o
+
+def opCmp3 {τ ε : Type} (io : ShapeIO τ ε) (mk : String → M τ) (cmpTy : τ → τ → Ordering)
+    (s1 s2 s3 : String) : M String := do
+  let a ← valueOf io mk s1
+  let b ← valueOf io mk s2
+  let c ← valueOf io mk s3
+  match a, b, c with
+  | some a, some b, some c =>
+    return s!"ab={ordName (ordOf io cmpTy a b)} bc={ordName (ordOf io cmpTy b c)} ac={ordName (ordOf io cmpTy a c)}"
+  | _, _, _ => return "NOVALUE"
+
 /-! ### package types -/
 
 def opPtype (s : Str) : String :=
@@ -637,6 +652,11 @@ def dispatch (line : String) : M String := do
     | "S" => opCmp ioS mkStrTy cmpTyS s1 s2
     | "M" => opCmp ioM mkStrTy cmpTyS s1 s2
     | "P" => opCmp ioP mkPkg cmpTyP s1 s2
+    | _ => return "NA"
+  | ["cmp3", sh, s1, s2, s3] =>
+    match sh with
+    | "S" => opCmp3 ioS mkStrTy cmpTyS s1 s2 s3
+    | "P" => opCmp3 ioP mkPkg cmpTyP s1 s2 s3
     | _ => return "NA"
   | ["ptype", s] => return opPtype (← unh s)
   | ["comb", ident, s] => opComb ident (← unh s)
